@@ -149,6 +149,7 @@ class Tokenizer:
         is_indented: bool = False
         indent = 0
         lines = {}
+        last_code_line = 0  # line of the last token seen that is not blank, comment or white space
         start = end = self._tokens[-1].end
         for idx, tok in enumerate(self._tokengen):
             self._record_lines(tok)
@@ -157,7 +158,7 @@ class Tokenizer:
             elif tok.type == Token.ENDMARKER:
                 raise self._syntax_error("unexpected EOF while scanning with-macro block", tok)
             elif tok.type == Token.INDENT:
-                if (not is_indented) and (idx == 1):
+                if (not is_indented) and not last_code_line:  # blank and comment lines may precede the block
                     is_indented = True
                     continue
                 indent += 1
@@ -179,9 +180,13 @@ class Tokenizer:
             if tok.end[0] > tok.start[0]:  # multi-line string: its line attribute holds all of its physical lines
                 for offset, line in enumerate(self._physical_lines(tok.line)):
                     if tok.start[0] + offset not in lines:
-                        lines[tok.start[0] + offset] = line if is_indented or offset else line[tok.start[1] :]
+                        on_header_line = tok.start[0] == start[0] and not offset
+                        lines[tok.start[0] + offset] = line[tok.start[1] :] if on_header_line else line
             elif tok.start[0] not in lines:
-                lines[tok.start[0]] = tok.line if is_indented else tok.line[tok.start[1] :]
+                # only the one-line form has text on the header line: the part after the colon
+                lines[tok.start[0]] = tok.line[tok.start[1] :] if tok.start[0] == start[0] else tok.line
+            if tok.type not in {Token.NL, Token.COMMENT, Token.WS}:
+                last_code_line = tok.end[0]
 
         string = "".join(lines.values())
         if is_indented:
